@@ -123,6 +123,10 @@ def main(argv=None):
             if r["status"] != "proved":
                 (broken if r["status"] == "failed" else undecided).append("%s: %s" % (name, r.get("detail")))
             continue
+        if r["kind"] == "agreement":
+            if r["status"] != "proved":
+                broken.append("engine and CPython disagree: %s: %s" % (name, r.get("detail")))
+            continue
         kf = known_by_ob.get(name)
         if kf is not None and kf.get("status") == "known":
             n_known += 1
